@@ -879,22 +879,27 @@ func (sc *segmentController[T, O]) create(ctx context.Context, start time.Time) 
 		}
 	}
 	options := sc.getOptions()
+	ts := start
 	// Anchor stdEnd to the aligned start before any bump so end stays on the
 	// global grid even when start is bumped past a legacy off-grid neighbor;
 	// subsequent segments then self-heal back to the grid.
 	alignedStart := options.SegmentInterval.Standard(start)
 	stdEnd := options.SegmentInterval.NextTime(alignedStart)
 	start = alignedStart
-	// sc.lst is sorted ascending by start time with non-overlapping ranges;
-	// a single pass bumps start past every legacy segment that swallows it
-	// (each next segment.Start >= previous.End).
+	// sc.lst is sorted ascending by start time with non-overlapping ranges and
+	// no segment contains ts, so every segment lies entirely before or entirely
+	// after ts. A single pass bumps start past every off-grid segment that ends
+	// inside [alignedStart, ts] and picks the first segment after ts as `next`,
+	// so the new range [start, end) always contains ts.
 	var next *segment[T, O]
 	for _, s := range sc.lst {
-		if s.Contains(start.UnixNano()) {
-			start = s.End
+		if !s.End.After(ts) {
+			if s.End.After(start) {
+				start = s.End
+			}
 			continue
 		}
-		if next == nil && s.Start.After(start) {
+		if next == nil {
 			next = s
 		}
 	}
